@@ -64,7 +64,9 @@ def where(fr, e):
 def call_repo(I, f, args, kwargs, e, fr, closure=None, self_val=None):
     I.events.append(("call", f.fq, tuple(args), dict(kwargs), where(fr, e), fr.func.fq, e))
     has_ref_circuit = any(isinstance(a, Ref) and I.heap[a.oid].kind == "circuit" for a in list(args) + list(kwargs.values()))
-    has_ref_obj = any(isinstance(a, Ref) and I.heap[a.oid].kind in ("circuit", "record", "passmanager") for a in list(args) + list(kwargs.values()))
+    has_ref_obj = (f.cls is not None and not f.is_static and bool(args) and isinstance(args[0], Ref)
+                   and I.heap[args[0].oid].kind == "record" and I.heap[args[0].oid].cls is not None
+                   and I.prog.find_method(I.heap[args[0].oid].cls, f.name) is f)
     if I.relevant(f) or has_ref_obj or getattr(f, "nested", False) and closure is not None and I.relevant(fr.func):
         if getattr(f, "nested", False) and closure is not None:
             # closures: make the defining frame's variables visible
@@ -376,6 +378,7 @@ def circuit_method(I, recv, o, name, args, kwargs, e, fr):
                 prov |= ao.elem.prov
         if prov:
             leaf = ("tgate", name, arity, tuple(sorted(prov, key=repr)), o.oid)
+            I.events.append(("tgate-emit", fr.func.fq, name, where(fr, e)))
         else:
             leaf = ("emit", name, arity)
         I.mutate(o, "append " + name, e)
